@@ -397,6 +397,8 @@ func (g *Gen) ledgerScenario(steps int) {
 			}
 		case x < 18 && g.r.Chance(1, 2): // two requests in flight at once
 			g.lraceCase(stored)
+		case x < 19 && g.r.Chance(1, 2): // table scans that break off (storage read fault)
+			g.ifaultCase(stored)
 		case x < 19:
 			a := stored[g.r.Intn(len(stored))]
 			b := stored[g.r.Intn(len(stored))]
